@@ -12,7 +12,6 @@
   loaders with arbitrary (class table) types but on strictly smaller data.
 -/
 import AdaptixProofs.Lemmas.MorphModesFuel
-import AdaptixModel.Morph.Scalars
 
 namespace Adaptix.Morph
 open Adaptix.Py
@@ -29,6 +28,7 @@ mutual
     | .deque xs => vsizeL xs + 1
     | .iter xs => vsizeL xs + 1
     | .dict kvs => vsizeKV kvs + 1
+    | .obj _ fs => vsizeF fs + 1
     | _ => 1
   def vsizeL : List Val → Nat
     | [] => 0
@@ -38,6 +38,11 @@ mutual
     | p :: rest => vsizeP p + vsizeKV rest
   def vsizeP : Val × Val → Nat
     | (k, v) => vsize k + vsize v
+  def vsizeF : List (String × Val) → Nat
+    | [] => 0
+    | p :: rest => vsizeFP p + vsizeF rest
+  def vsizeFP : String × Val → Nat
+    | (_, v) => vsize v
 end
 
 theorem vsize_pos (x : Val) : 0 < vsize x := by
@@ -550,19 +555,5 @@ theorem load_total_all_cfg (W : World) (hW : LeavesAnswer W) (T : Ty) (d : Val) 
   refine ⟨N, fun cfg m hm => hN m hm cfg ?_⟩
   obtain ⟨t, s⟩ := cfg
   cases t <;> cases s <;> simp
-
-/-- the leaves built from the TRANSLATED closures (`Morph/Scalars.lean`) never answer `diverge`,
-    whatever the call-site oracle: the hypothesis `LeavesAnswer` holds of every world the
-    correspondence driver builds from them -/
-theorem scalarLoadGen_answers (oracle : SiteOracle) (strict : Bool) (s : String) (d : Val) :
-    scalarLoadGen oracle strict s d ≠ .diverge := by
-  unfold scalarLoadGen
-  split
-  · simp
-  · unfold resToOutcome
-    split
-    · simp
-    · simp
-    · split <;> simp
 
 end Adaptix.Morph
